@@ -17,7 +17,7 @@ Inductive expr :=
 | EStarred (e : expr)
 | EAttr (e : expr) (a : string)
 | ESetLit (l : list expr)                                 (* immutable set display (FROZENSET) *)
-| EDictLit (kvs : list (expr * expr)).                    (* immutable dict display (.update arg) *)
+| EDictLit (kvs : list (expr * expr)).                    (* dict display that is not a node (no longer emitted) *)
 
 Inductive node :=
 | NList (l : list expr)
@@ -212,10 +212,11 @@ Definition step (o : op) (s : fk) : res fk :=
   | OSetItems =>
       do '(items, s1) <- pop_slice s; do '(d, s2) <- pop_val s1;
       let upd := pairs_of items in
+      (* target is not a dict display: one `_var[k] = v` per pair, in order, as the VM performs them *)
       let other :=
         let '(name, s3) := new_variable d s2 in
         Ok (push (EVar name)
-              (emit (SExpr (ECall (EAttr (EVar name) "update") [EDictLit upd] None)) s3)) in
+              (fold_left (fun st kv => emit (SSetItemV name (fst kv) (snd kv)) st) upd s3)) in
       match d with
       | ENode i =>
           match get_node i s2 with
